@@ -15,7 +15,7 @@ THEOREMS = ['C06_tt_to_gate_type_denotes', 'C06_tt_to_gate_type_injective', 'C06
             'C06_exactly_one_sound', 'C06_exactly_one_complete',
             'C06_soundness', 'C06_completeness', 'C06_soundness_typed', 'C06_completeness_typed',
             'C06_find_circuit_returns_valid', 'C06_no_solution_iff_none_exists', 'C06_find_circuit_total',
-            'C06_validb_sound']
+            'C06_solver_hypotheses_satisfiable', 'C06_validb_decides']
 PARTIAL = {}
 LEVEL_TEXT = ('soundness and completeness of the CNF encoding (every clause family, fix_gate, forbid_wire, '
               'need_normalized, don\'t-cares) and of the decoder are proved for all input/output counts, gate '
